@@ -56,6 +56,29 @@ Print Assumptions C15_history_continuity.
 
 (* the full invariant (over deploy AND bootstrap) is refuted by the faithful model: bootstrap shares
    the codex skills root with deploy and rewrites the manifest from its own desired state only *)
+(* ... and across rollback: after any plain history, rollback to S brings back, for every root,
+   exactly the listing S's deploy had written and every file of S's desired state — what rollback
+   re-creates is tracked again, what it deletes is no longer listed (corollary of the C06 history
+   theorem: the whole disk equals the disk right after S) *)
+Theorem C15_rollback_continuity : forall st confirmed adopt w0 roots DS pl wS h,
+  deploy_cmd st confirmed adopt None w0 roots DS = (pl, (OApplied, wS)) ->
+  wfD roots DS -> wfM DS (managed_for_plan w0 roots None) -> covered roots DS ->
+  all_manifests roots (files wS) ->
+  hist_ok roots wS h ->
+  (forall cur init, snaps (run_hist roots wS h) = init ++ [cur] ->
+     forall e e', In e (sn_managed cur) -> In e' (triples DS) -> mpath e = mpath e' -> mtp e = mtp e') ->
+  exists w', rollback (run_hist roots wS h) (length (snaps w0)) = (RbOk, w') /\
+    (forall r, root_managed (files w') r = root_managed (files wS) r) /\
+    (forall d, In d DS -> files w' (dpath d) = Some (FBytes (dcontent d))).
+Proof.
+  intros st confirmed adopt w0 roots DS pl wS h Hdep HD HM Hcov Hall Hok Hcompat.
+  destruct (rollback_inverts_history st confirmed adopt w0 roots DS pl wS h Hdep HD HM Hcov Hall Hok Hcompat) as [w' [Hrb Hf]].
+  exists w'. split; [exact Hrb|]. split.
+  - intros r. unfold root_managed. rewrite (read_manifest_ext (files w') (files wS) r (fun q _ => Hf q)). reflexivity.
+  - intros d Hd. rewrite Hf. exact (proj1 (deploy_converged _ _ _ _ _ _ _ _ _ Hdep HD HM) d Hd).
+Qed.
+Print Assumptions C15_rollback_continuity.
+
 Example C15_continuity_refuted :
   let r := Build_root (s "codex") [s "h"; s "skills"] true in
   let ps := [s "h"; s "skills"; s "mine"; s "SKILL.md"] in
